@@ -94,9 +94,19 @@ func poisonFor(c Case) []string {
 		h = hash64(string(rune(i)) + "\x00" + c.key())
 		switch {
 		case pick < 4 && len(own) > 1 && len(own) < 4096: // a spelling near the case's own expression
-			switch h % 6 {
+			switch h % 10 {
+			case 6:
+				// the same text with other amounts of white space everywhere, inside quoted tokens
+				// too (another expression that a cache keyed by "normalised" text would confuse with this one)
+				steps = append(steps, encodeStep(strings.Replace(own, " ", "  ", -1)))
+			case 7:
+				steps = append(steps, encodeStep(strings.Join(strings.Fields(own), " ")))
+			case 8:
+				steps = append(steps, encodeStep(strings.Replace(own, " ", "\v", -1)))
+			case 9:
+				steps = append(steps, encodeStep(strings.ToLower(own)))
 			case 0:
-				steps = append(steps, encodeStep(own[:1+int((h/6)%uint64(len(own)-1))]))
+				steps = append(steps, encodeStep(own[:1+int((h/10)%uint64(len(own)-1))]))
 			case 1:
 				steps = append(steps, encodeStep("   "+own+"  "))
 			case 2:
@@ -106,7 +116,7 @@ func poisonFor(c Case) []string {
 			case 4:
 				steps = append(steps, encodeStep("["+own+", sort_by(`[1,\"a\",2]`, &@)]"))
 			default:
-				steps = append(steps, encodeStep(own[int((h/6)%uint64(len(own))):]))
+				steps = append(steps, encodeStep(own[int((h/10)%uint64(len(own))):]))
 			}
 		default:
 			steps = append(steps, poisonPool[int((h/16)%uint64(len(poisonPool)))])
